@@ -16,7 +16,11 @@ func withWhitelist(t *testing.T, gs []string, wl []fnSpec, f func(out map[string
 	f(out, errs)
 }
 
-func init() { accessors["pos.Big.Count"] = true }
+func init() {
+	accessors["pos.Big.Count"] = true
+	pathAccessors["pos4.Big.Inner"] = struct{ path, body string }{"inner", "&b.inner"}
+	pathAccessors["neg.Deep.Moved"] = struct{ path, body string }{"inner", "&d.inner"}
+}
 
 func TestSubset(t *testing.T) {
 	wl := []fnSpec{
@@ -269,6 +273,99 @@ func TestMutRejected(t *testing.T) {
 		sp.dir, sp.file, sp.name, sp.lean, sp.round2, sp.round3 = "neg", "neg.go", c.name, "f", true, true
 		wl := []fnSpec{
 			{dir: "neg", file: "neg.go", name: "setM", lean: "setM", round2: true, round3: true, views: map[string]string{"t": "n"}, mut: map[string]string{"t": "m"}},
+			sp,
+		}
+		withWhitelist(t, []string{""}, wl, func(out map[string]string, errs []error) {
+			if len(errs) != 1 || !strings.Contains(errs[0].Error(), c.msg) {
+				t.Errorf("%s: expected one failure mentioning %q, got %v", c.name, c.msg, errs)
+			}
+			if _, written := out["Funcs.lean"]; written {
+				t.Errorf("%s: a group with a failed function must not be written", c.name)
+			}
+		})
+	}
+}
+
+// TestEval pins the fourth-round translation (eval.go): whole-array views with the static-length guard, constant-index views
+// fed from a whole array, a path accessor, a closure over a view (Option-valued, with a `for { break }` loop, called twice in
+// one statement), an out-parameter and its call statements, `var a [N]T`, arrays as values, range over an array.
+func TestEval(t *testing.T) {
+	wl := []fnSpec{
+		{dir: "pos4", file: "pos4.go", name: "Pick", lean: "pick", views: map[string]string{"w": "[all]"}},
+		{dir: "pos4", file: "pos4.go", name: "Narrow", lean: "narrow", views: map[string]string{"w": "[2]"}},
+		{dir: "pos4", file: "pos4.go", name: "Pass", lean: "pass", views: map[string]string{"w": "[all]"}},
+		{dir: "pos4", file: "pos4.go", name: "Groups", lean: "groups", views: map[string]string{"b": "bits inner.Gs"}},
+		{dir: "pos4", file: "pos4.go", name: "Count", lean: "count", views: map[string]string{"b": "bits"}, fuel: []string{"k.toNat + 1"}},
+		{dir: "pos4", file: "pos4.go", name: "Fill", lean: "fill", outParam: "out", fuel: []string{"out.size + 1"}},
+		{dir: "pos4", file: "pos4.go", name: "UseFill", lean: "useFill"},
+		{dir: "pos4", file: "pos4.go", name: "init", lean: "tableInit", globals: "base over table", writes: "table"},
+	}
+	for i := range wl {
+		wl[i].round2, wl[i].round3 = true, true
+	}
+	withWhitelist(t, []string{""}, wl, func(out map[string]string, errs []error) {
+		for _, e := range errs {
+			t.Errorf("unexpected failure: %v", e)
+		}
+		src := out["Funcs.lean"]
+		if p := os.Getenv("GEN_DUMP"); p != "" {
+			os.WriteFile(p, []byte(src), 0o644)
+		}
+		for _, want := range []string{
+			// whole-array view: constant index unguarded, computed index checked against the static length of the Go array
+			"def pick (w_all : Array (Int)) (k : Int) : Option (Int) :=\n  if !(decide ((0 : Int) ≤ k) && decide (k < (4 : Int))) then none else\n  some (((w_all.getD 1 (0 : Int)) + (w_all.getD k.toNat (0 : Int))))",
+			// a callee with a constant-index view is given the element of the caller's whole array
+			"def narrow (w_2 : Int) : Int :=\n  w_2",
+			"def pass (w_all : Array (Int)) : Int :=\n  ((narrow (w_all.getD 2 (0 : Int))) + (w_all.getD 0 (0 : Int)))",
+			// path accessor: `in.Gs` is the view b_inner_Gs
+			"def groups (b_bits : BitVec 64) (b_inner_Gs : Array (BitVec 64)) : Int :=",
+			"groups_loop0 b_bits (b_inner_Gs).toList n",
+			// the closure: captured local and captured view are leading parameters; Option because of gs[j] and the loop
+			"def count_one (b_bits : BitVec 64) (lim : BitVec 64) (gs : Array (BitVec 64)) (k : Int) : Option (Int) :=",
+			// `for { .. break .. }`: fuel from the whitelist, none when it runs out, break = the state
+			"def count_one_loop0 (b_bits : BitVec 64) (gs : Array (BitVec 64)) (k : Int) (lim : BitVec 64) : Nat → (Int × Int) → Option ((Int × Int))\n  | 0, _ => none",
+			"else\n      some ((j, n))",
+			"match count_one_loop0 b_bits gs k lim (k.toNat + 1) (j, n) with",
+			// both calls hoisted in front of the statement
+			"match (count_one b_bits lim xs (2 : Int)) with\n  | none => none\n  | some tmp0 =>\n  match (count_one b_bits lim xs (3 : Int)) with\n  | none => none\n  | some tmp1 =>\n  some ((tmp0 + tmp1))",
+			// out-parameter: the function returns the slice; the call statement rebinds the caller's variable
+			"def fill (out : Array (BitVec 64)) (v : BitVec 64) : Option (Array (BitVec 64)) :=",
+			"let a : Array (BitVec 64) := (Array.replicate 3 0#64)\n  match (fill a v) with\n  | none => none\n  | some a =>\n  match (fill a 1#64) with\n  | none => none\n  | some a =>",
+			// arrays are values; range over an array; the table
+			"let six : Array (Int) := g_base",
+			"match tableInit_loop0 (g_over).toList (0 : Int) six with",
+			"let g_table : Array (Array (Int)) := (#[g_base, six] : Array (Array (Int)))",
+		} {
+			if !strings.Contains(src, want) {
+				t.Errorf("generated source lacks:\n%s", want)
+			}
+		}
+		if t.Failed() {
+			t.Logf("generated:\n%s", src)
+		}
+	})
+}
+
+// TestEvalRejected: what the fourth round cannot translate faithfully is refused loudly.
+func TestEvalRejected(t *testing.T) {
+	cases := []struct {
+		name, msg string
+		spec      fnSpec
+	}{
+		{"IndexNoAll", "only constant indices into an abstract array parameter", fnSpec{views: map[string]string{"w": "[1]"}}},
+		{"AccessorChanged", "body is no longer a single return", fnSpec{views: map[string]string{"d": "inner.Gs"}}},
+		{"ClosureTracked", "a field of a parameter the function assigns through", fnSpec{views: map[string]string{"b": "n"}, mut: map[string]string{"b": "n"}}},
+		{"OutWhole", "is assigned as a whole", fnSpec{outParam: "out"}},
+		{"OutArg", "must be a local slice / array variable", fnSpec{}},
+		{"OutAliased", "is copied (a second name for its backing array)", fnSpec{}},
+		{"ForeverNoFuel", "no fuel given", fnSpec{}},
+	}
+	for _, c := range cases {
+		sp := c.spec
+		sp.dir, sp.file, sp.name, sp.lean, sp.round2, sp.round3 = "neg", "neg.go", c.name, "f", true, true
+		wl := []fnSpec{
+			{dir: "neg", file: "neg.go", name: "fillOne", lean: "fillOne", round2: true, round3: true, outParam: "out"},
+			{dir: "neg", file: "neg.go", name: "mkSlice", lean: "mkSlice", round2: true, round3: true},
 			sp,
 		}
 		withWhitelist(t, []string{""}, wl, func(out map[string]string, errs []error) {
